@@ -62,6 +62,10 @@ MUTANTS = [
     ("C10", "flip_input_only", G + "models.py", "            self.model(self.to1d(x.times_group_element(equator_flip)), aux_data)[0]\n        ).times_group_element(equator_flip)", "            self.model(self.to1d(x.times_group_element(equator_flip)), aux_data)[0]\n        )", "equator flip not undone on the output"),
     ("C10", "swap_components", G + "models.py", "                out.append(0, 1, image[..., 0])\n                out.append(0, 0, image[..., 1])", "                out.append(0, 1, image[..., 1])\n                out.append(0, 0, image[..., 0])", "vector components sent to the wrong parity in to1d only"),
     ("C10", "to1d_unsorted", G + "models.py", "in sorted(dynamic_x.items(), key=lambda key_img: key_img[0]):", "in dynamic_x.items():", "the original defect"),
+    ("C06", "filter_parity_in_only", G + "ml/layers.py", "ALL:filter_key = (in_k + out_k, (in_p + out_p) % 2)", "filter_key = (in_k + out_k, in_p % 2)", "filter type ignores the target parity (consistently in constructor and call)"),
+    ("C06", "bias_on_pseudoscalars", G + "ml/layers.py", "if (k, p) == (0, 0) and (self.use_bias == \"scalar\" or self.use_bias == \"auto\"):", "if k == 0 and (self.use_bias == \"scalar\" or self.use_bias == \"auto\"):", "additive bias on pseudo-scalars"),
+    ("C06", "mean_over_last_axis", G + "ml/layers.py", "image, axis=tuple(range(1, 1 + self.invariant_filters.D)), keepdims=True", "image, axis=tuple(range(2, 2 + self.invariant_filters.D)) if k > 0 else tuple(range(1, 1 + self.invariant_filters.D)), keepdims=True", "mean over one spatial axis and the first tensor axis for k>0"),
+    ("C06", "asymmetric_same", G + "geometric/functional_geometric_image.py", "            return (((M - 1) // 2) * dilation, ((M - 1) // 2) * dilation)", "            return (((M - 1) // 2) * dilation + 1, ((M - 1) // 2) * dilation - 1)", "SAME padding shifted by one pixel"),
     ("C19", "le", G + "ml/stopping_conditions.py", "if train_loss < (self.best_train_loss - self.min_delta):", "if train_loss <= (self.best_train_loss - self.min_delta):", "non-strict improvement test"),
     ("C19", "ge_patience", G + "ml/stopping_conditions.py", "        return self.epochs_since_best > self.patience\n\n\nclass ValLoss", "        return self.epochs_since_best >= self.patience\n\n\nclass ValLoss", "stops one epoch early"),
     ("C19", "no_reset", G + "ml/stopping_conditions.py", "            self.best_model = model\n            self.epochs_since_best = 0\n\n            if self.verbose >= 1:\n                self.log_status(current_epoch, train_loss, val_loss, epoch_time)\n        else:\n            self.epochs_since_best += 1\n\n        return self.epochs_since_best > self.patience\n\n\nclass ValLoss", "            self.best_model = model\n\n            if self.verbose >= 1:\n                self.log_status(current_epoch, train_loss, val_loss, epoch_time)\n        else:\n            self.epochs_since_best += 1\n\n        return self.epochs_since_best > self.patience\n\n\nclass ValLoss", "counter not reset on improvement"),
@@ -80,9 +84,12 @@ def run_one(m, keep=False):
         shutil.copytree(os.path.join("/repo", "src"), os.path.join(tmp, "src"))
         p = os.path.join(tmp, rel)
         s = open(p).read()
+        every = old.startswith("ALL:")
+        if every:
+            old = old[4:]
         if s.count(old) < 1:
             return (prop, mid, "STALE", "pattern not found")
-        s = s.replace(old, new, 1)
+        s = s.replace(old, new) if every else s.replace(old, new, 1)
         try:
             ast.parse(s)
         except SyntaxError as e:
